@@ -18,6 +18,9 @@ CASE_TIMEOUT = 60
 
 
 def cases(tier):
+    from mc.props.c04 import prog_gadgets
+
+    yield from prog_gadgets(tier)  # junction proportions overwritten by a program from t0 / from mid-run
     yield from simspace.all_sim(tier)
 
 
